@@ -76,6 +76,26 @@ def _gen_case(rng, flavor=None, size=None):
         r = rng.random()
         linked = [s for s in SLOTS if cur.get(s) == 'linked']
         free = [s for s in SLOTS if s not in cur]
+        if linked and rng.random() < 0.07:
+            q = rng.random()
+            s = rng.choice(linked)
+            if q < 0.3:
+                ops.append(['move', s])                      # the blob moves to another container (and back)
+                clean = False
+            elif q < 0.5:
+                ops.append(['modes', s])                     # readers / writer handles, committed(), open('c')
+                clean = False
+            elif q < 0.75:
+                free2 = [x for x in SLOTS if x not in cur]
+                if free2:
+                    d2 = rng.choice(free2)
+                    ops.append(['expimp', s, d2])            # exportFile + importFile of the blob
+                    cur[d2] = 'linked'
+                    created.add(d2)
+                    clean = False
+            else:
+                ops.append(['cache', rng.choice(['min', 'gc', 'sync'])])
+            continue
         if r < 0.14 and free:
             s = rng.choice(free)
             ops.append(['new', s, gen_data(rng)])
@@ -86,8 +106,10 @@ def _gen_case(rng, flavor=None, size=None):
             ops.append(['write', rng.choice(linked), rng.choice(['w', 'w', 'a', 'a', 'r+']), gen_data(rng)])
             clean = False
         elif r < 0.45 and linked:
-            ops.append(['consume', rng.choice(linked), gen_data(rng)])
+            ops.append(['consume', rng.choice(linked), gen_data(rng)] + (['exdev'] if rng.random() < 0.3 else []))
             clean = False
+        elif r < 0.47 and clean and flavor == 'fs' and ncommit and rng.random() < 0.25:
+            ops.append(['reopen'])
         elif r < 0.47 and clean and rng.random() < 0.4:
             # commit attempted with the blob still open for writing (ValueError), close, abort, retry
             s = rng.choice(SLOTS)
@@ -96,11 +118,14 @@ def _gen_case(rng, flavor=None, size=None):
                 cur[s] = 'linked'
             end_txn(True)
             ncommit += 1
+        elif r < 0.485:
+            ops.append(['mdbwrite', rng.choice(['w', 'a', 'r+']), gen_data(rng)])   # only in multi-database cases
+            clean = False
         elif r < 0.50:
             ops.append(['plain', rng.randrange(9)])
             clean = False
         elif r < 0.55:
-            cands = [s for s in linked if s not in created and s in com]
+            cands = [s for s in linked if (s not in created and s in com) or (s in created and rng.random() < 0.5)]
             back = [s for s in SLOTS if cur.get(s) == 'unlinked']
             if back and (not cands or rng.random() < 0.5):
                 s = rng.choice(back)
@@ -136,7 +161,7 @@ def _gen_case(rng, flavor=None, size=None):
             cl = [s for s in SLOTS if com.get(s) == 'linked']
             if cl and rng.random() < 0.25:
                 il = [rng.choice(cl), gen_data(rng)]
-            ops.append(['commit', il])
+            ops.append(['commit', il] + (['exdev'] if rng.random() < 0.06 else []))
             end_txn(True)
             ncommit += 1
         elif r < 0.83:
@@ -176,7 +201,7 @@ def _gen_case(rng, flavor=None, size=None):
                 end_txn(True)
             if flavor == 'fs' and rng.random() < 0.3:
                 ops.append(['failpack'])                    # abandoned pack (disk full), then …
-            ops.append(['pack', rng.randrange(0, 6)])
+            ops.append(['pack', rng.randrange(0, 6)] + (['days'] if rng.random() < 0.2 else []))
             clean = True
     ops.append(['commit', None])
     return dict(level='db', flavor=flavor, keep_old=rng.random() < 0.4, gc=rng.random() < 0.7,
@@ -201,6 +226,7 @@ def add_construction(c, rng):
 def gen_case(rng, flavor=None, size=None):
     c = _gen_case(rng, flavor, size)
     add_construction(c, rng)
+    c['mdb'] = rng.random() < 0.25          # a multi-database group with a second blob database
     if c['flavor'] == 'fs':
         # a record-transforming wrapper (hexstorage) between the DB and the FileStorage
         c['hex'] = rng.random() < 0.3
@@ -274,6 +300,9 @@ def run_case(case, root):
         if len(problems) < 12 and sum(1 for s0, _ in problems if s0 == sig) < 2:
             problems.append((sig, what))
 
+    import tempfile as _tempfile
+    _saved_tempdir = _tempfile.tempdir
+    _tempfile.tempdir = root            # new Blob objects keep their first working file in the temp directory
     with clock.scripted():
         import warnings
         warnings.simplefilter('ignore')
@@ -281,6 +310,22 @@ def run_case(case, root):
                   pack_gc=case.get('gc', True), hex=bool(case.get('hex')), layout=case.get('layout'),
                   via_config=bool(case.get('cfg')), oid_base=case.get('oid_base', 0), db_opts=case.get('dbo'))
         try:
+            mdb = None
+            if case.get('mdb'):
+                # a second database with its own blob storage (the other kind) in the same multi-database group:
+                # transactions may span both (oracle only for the second one)
+                import ZODB
+                import ZODB.blob
+                from ZODB.FileStorage import FileStorage as _FS
+                from ZODB.MappingStorage import MappingStorage as _MS
+                dbs = {}
+                env.db_opts.update(databases=dbs, database_name='main')
+                od = os.path.join(root, 'mdb')
+                os.makedirs(od)
+                ost = (ZODB.blob.BlobStorage(os.path.join(od, 'blobs'), _MS()) if flavor == 'fs' else
+                       _FS(os.path.join(od, 'Data.fs'), blob_dir=os.path.join(od, 'blobs')))
+                mdb = dict(db=ZODB.DB(ost, databases=dbs, database_name='other'), dir=os.path.join(od, 'blobs'),
+                           committed=None, nrev=0)
             db = env.open_db()
             tm0 = transaction.TransactionManager()
             c0 = db.open(tm0)
@@ -300,6 +345,7 @@ def run_case(case, root):
             V = dict(bytes={}, linked=set(), dirty=set(), created=set(), root=False, since_sp=set())
             sps = []                    # [(savepoint, snapshot)]
             faulted = [False]
+            slot_oid = {}
             dupkeys = set()
             oid_hint = {}
             # a second long-lived connection with its own uncommitted working copies
@@ -325,6 +371,7 @@ def run_case(case, root):
                 for sl in sorted(C['bytes']):
                     emit('obj.load %s %s' % (sl[1], hexs(C['bytes'][sl])), 'ok')
                 V['since_sp'] = set()
+                V['owork'] = None
                 V['base'] = dict(C['bytes'])      # what the base storage shows this connection's snapshot
                 V['bytes'] = dict(C['bytes'])
                 V['linked'] = set(C['linked'])
@@ -332,7 +379,43 @@ def run_case(case, root):
                 del sps[:]
 
             def snap():
-                return (dict(V['bytes']), set(V['linked']), set(V['dirty']), set(V['created']), V['root'])
+                return (dict(V['bytes']), set(V['linked']), set(V['dirty']), set(V['created']), V['root'],
+                        V.get('owork'))
+
+            def commit0():
+                """commit connection 0's transaction (it may span the second database)"""
+                try:
+                    tm0.commit()
+                except BaseException:
+                    V['owork'] = None
+                    raise
+                if mdb is not None and V.get('owork') is not None:
+                    mdb['committed'] = V['owork']
+                    mdb['nrev'] += 1
+                    nontrivial[0] = nontrivial[0] or mdb['nrev'] > 1
+                V['owork'] = None
+
+            def check_other_db(after):
+                if mdb is None:
+                    return
+                n = sum(1 for dp, _, fn in os.walk(mdb['dir']) for f2 in fn if f2.endswith('.blob'))
+                if n != mdb['nrev']:
+                    bad('C13:second-database-blob-files', 'the second database of the group holds %d blob files for %d '
+                        'committed revisions (after %s)' % (n, mdb['nrev'], after))
+                if mdb['committed'] is not None:
+                    tmx = transaction.TransactionManager()
+                    cx = mdb['db'].open(tmx)
+                    try:
+                        got = read_blob(cx.root()['x'])
+                        if got != mdb['committed']:
+                            bad('C13:second-database-wrong-bytes', 'second database reads %r, committed %r (after %s)'
+                                % (got[:40], mdb['committed'][:40], after))
+                    except Exception as e:
+                        bad('C13:read-error', 'reading the blob of the second database after %s raised %s: %s'
+                            % (after, type(e).__name__, str(e)[:100]))
+                    finally:
+                        tmx.abort()
+                        cx.close()
 
             def prev_bytes(oid, tid):
                 older = [(t, b) for t, b in hist.get(oid, []) if t < tid]
@@ -346,6 +429,10 @@ def run_case(case, root):
             def read_blob(b):
                 with b.open('r') as f:
                     return f.read()
+
+            def at(rt, slot):
+                """the blob of a slot: held by the root, or (after a 'move') by the mapping root['p']"""
+                return rt[slot] if slot in rt else rt['p'][slot]
 
             def guard():
                 """no raw write / truncate / create / writable open on, and no rename onto, a file that is a
@@ -422,14 +509,14 @@ def run_case(case, root):
                     rx = cx.root()
                     for slot in sorted(C['linked']):
                         try:
-                            data = read_blob(rx[slot])
+                            data = read_blob(at(rx, slot))
                         except Exception as e:
                             bad('C13:read-error', 'reading committed blob %s in a second connection after %s '
                                 'raised %s: %s' % (slot, after, type(e).__name__, str(e)[:120]))
                             continue
                         want = C['bytes'][slot]
                         try:
-                            with rx[slot].open('c') as f:          # the committed file itself
+                            with at(rx, slot).open('c') as f:          # the committed file itself
                                 data_c = f.read()
                             if data_c != data:
                                 bad('C13:second-connection-wrong-bytes', "open('c') of %s reads %r, open('r') %r"
@@ -499,7 +586,7 @@ def run_case(case, root):
                             if not revs or revs[-1][1] is None or (oid, revs[-1][0]) in gone:
                                 continue
                             try:
-                                data = read_blob(rx[slot])
+                                data = read_blob(at(rx, slot))
                             except Exception as e:
                                 bad('C13:historical-read-error', 'snapshot at %d: reading %s raised %s: %s (after %s)'
                                     % (t['tid'], slot, type(e).__name__, str(e)[:100], after))
@@ -519,6 +606,7 @@ def run_case(case, root):
                 check_own_view(after)
                 check_c1_view(after)
                 check_history(after)
+                check_other_db(after)
                 left = [x for x in env.tmp_listing() if x.startswith('savepoints')]
                 if left:
                     cnt('tmp-leftover-savepoint-dir')
@@ -536,7 +624,7 @@ def run_case(case, root):
                         b = objs.get(slot)
                         if b is None and slot in V['linked']:
                             try:
-                                b = objs[slot] = r0[slot]      # references were dropped before the commit
+                                b = objs[slot] = at(r0, slot)      # references were dropped before the commit
                             except KeyError:
                                 b = None
                         if b is not None and b._p_oid is not None:
@@ -552,10 +640,11 @@ def run_case(case, root):
                         hist.setdefault(oid, []).append((tid, data))
                         C['bytes'][slot] = data
                         oids[oid] = slot
+                        slot_oid[slot] = oid
                     for s2 in V['linked']:
                         if s2 not in objs:
                             try:
-                                objs[s2] = r0[s2]
+                                objs[s2] = at(r0, s2)
                             except KeyError:
                                 pass
                     C['linked'] = {s: u64(objs[s]._p_oid) for s in V['linked'] if s in objs
@@ -574,6 +663,7 @@ def run_case(case, root):
                     for oid, (slot, b) in vals.items():
                         hist.setdefault(oid, []).append((tid, b))
                         oids[oid] = slot
+                        slot_oid[slot] = oid
                         if b is not None:
                             files[(oid, tid)] = b
                             C['bytes'][slot] = b
@@ -603,7 +693,7 @@ def run_case(case, root):
                 for slot in C['linked']:
                     if slot not in objs:
                         try:
-                            objs[slot] = r0[slot]
+                            objs[slot] = at(r0, slot)
                         except KeyError:
                             pass
 
@@ -614,7 +704,7 @@ def run_case(case, root):
                 for slot in C['linked']:
                     if slot not in objs:
                         try:
-                            objs[slot] = r0[slot]
+                            objs[slot] = at(r0, slot)
                         except KeyError:
                             pass
 
@@ -630,7 +720,7 @@ def run_case(case, root):
                 tmi = transaction.TransactionManager()
                 ci = db.open(tmi)
                 try:
-                    b = ci.root()[slot]
+                    b = at(ci.root(), slot)
                     with b.open('w') as f:
                         f.write(data)
                     tmi.commit()
@@ -687,7 +777,26 @@ def run_case(case, root):
                             fn = os.path.join(scratch, 'consume%d' % len(env.rec.events))
                             with open(fn, 'wb') as f:
                                 f.write(data)
-                            b.consumeFile(fn)
+                            if len(op) > 3 and op[3] == 'exdev':
+                                # the file to consume lives on another file system: rename fails, copy + remove
+                                import errno
+                                real_rename = os.rename
+
+                                def rename_once(a_, b_2, *aa, **kk):
+                                    if a_ == fn:
+                                        os.rename = real_rename
+                                        raise OSError(errno.EXDEV, 'Invalid cross-device link (injected)')
+                                    return real_rename(a_, b_2, *aa, **kk)
+                                os.rename = rename_once
+                                try:
+                                    b.consumeFile(fn)
+                                finally:
+                                    os.rename = real_rename
+                                cnt('consume:exdev')
+                            else:
+                                b.consumeFile(fn)
+                            if os.path.exists(fn):
+                                bad('C13:consume-file', 'the consumed file is still there')
                             V['bytes'][slot] = data
                             emit('obj.consume %s %s' % (slot[1], hexs(data)), hexs(read_blob(b)))
                         V['dirty'].add(slot)
@@ -696,12 +805,119 @@ def run_case(case, root):
                         r0['p']['k'] = op[1]
                     elif kind == 'unlink':
                         slot = op[1]
-                        if slot not in V['linked'] or slot in V['created'] or slot not in C['bytes']:
+                        if slot not in V['linked'] or (slot not in C['bytes'] and slot not in V['created']):
                             cnt('skip')
                             continue
-                        del r0[slot]
+                        if slot in V['created']:
+                            cnt('unlink:created-in-this-transaction')
+                        if slot in r0:
+                            del r0[slot]
+                        else:
+                            del r0['p'][slot]
                         V['linked'].discard(slot)
                         V['root'] = True
+                    elif kind == 'move':
+                        slot = op[1]
+                        if slot not in V['linked'] or slot not in objs:
+                            cnt('skip')
+                            continue
+                        if slot in r0:                      # root -> the mapping below it, or back
+                            r0['p'][slot] = r0[slot]
+                            del r0[slot]
+                        else:
+                            r0[slot] = r0['p'][slot]
+                            del r0['p'][slot]
+                        V['root'] = True
+                    elif kind == 'cache':
+                        if op[1] == 'min':
+                            c0.cacheMinimize()
+                        elif op[1] == 'gc':
+                            c0.cacheGC()
+                        elif not (V['dirty'] or V['created'] or V['root'] or V.get('owork') is not None):
+                            c0.sync()
+                            F0.clear()
+                            reset_view()
+                        check_own_view('cache')
+                    elif kind == 'modes':
+                        slot = op[1]
+                        if slot not in V['linked'] or slot not in objs or slot in V['dirty'] or slot in V['created'] \
+                                or slot not in C['bytes']:
+                            cnt('skip')
+                            continue
+                        from ZODB.interfaces import BlobError
+                        b = objs[slot]
+                        want = V['bytes'][slot]
+
+                        def refused(what, fn2):
+                            try:
+                                h = fn2()
+                            except BlobError:
+                                return
+                            except Exception as e:
+                                bad('C13:blob-api', '%s raised %s instead of BlobError' % (what, type(e).__name__))
+                                return
+                            try:
+                                h.close()
+                            except Exception:
+                                pass
+                            bad('C13:blob-api', '%s was not refused' % what)
+                        h1, h2 = b.open('r'), b.open('r')           # several readers at once
+                        try:
+                            if h1.read() != want or h2.read() != want:
+                                bad('C13:working-copy-bytes', 'two readers of %s do not both read the committed bytes' % slot)
+                            refused("open('w') while readers are open", lambda: b.open('w'))
+                        finally:
+                            h1.close()
+                            h2.close()
+                        with open(b.committed(), 'rb') as f:        # the committed file's name
+                            if f.read() != want:
+                                bad('C13:blob-bytes-differ', 'committed() of %s names a file with other bytes' % slot)
+                        with b.open('c') as f:
+                            if f.read() != want:
+                                bad('C13:blob-bytes-differ', "open('c') of %s reads other bytes" % slot)
+                        h1 = b.open('a')                            # a writer: working copy = copy of the committed data
+                        try:
+                            refused("open('r') while a writer is open", lambda: b.open('r'))
+                            refused("a second writer", lambda: b.open('w'))
+                        finally:
+                            h1.close()
+                        refused('committed() with uncommitted changes', lambda: open(b.committed(), 'rb'))
+                        refused("open('c') with uncommitted changes", lambda: b.open('c'))
+                        try:
+                            type('SubBlob', (Blob,), {})()
+                            bad('C13:blob-api', 'a Blob subclass could be instantiated')
+                        except TypeError:
+                            pass
+                        h1 = h2 = None
+                        V['dirty'].add(slot)
+                        V['since_sp'].add(slot)
+                        emit('obj.write %s a -' % slot[1], hexs(read_blob(b)))
+                    elif kind == 'expimp':
+                        src, dst = op[1], op[2]
+                        if src not in C['linked'] or src not in V['linked'] or src in V['dirty'] or src not in objs \
+                                or dst in objs or dst in V['linked']:
+                            cnt('skip')
+                            continue
+                        fn = os.path.join(scratch, 'export%d' % len(env.rec.events))
+                        with open(fn, 'wb') as f:
+                            c0.exportFile(objs[src]._p_oid, f)
+                        with open(fn, 'rb') as f:
+                            nb = c0.importFile(f)         # (takes a savepoint: everything changed so far is stored)
+                        for sl in sorted(V['since_sp']):
+                            if sl in objs:
+                                emit('sp.store %s 1' % sl[1], 'ok')
+                        V['since_sp'] = set()
+                        if not isinstance(nb, Blob):
+                            bad('C13:import-export', 'importFile of an exported blob returned %r' % (type(nb),))
+                            continue
+                        r0[dst] = nb
+                        objs[dst] = nb
+                        V['bytes'][dst] = V['bytes'][src]
+                        V['linked'].add(dst)
+                        V['created'].add(dst)
+                        V['root'] = True
+                        emit('obj.load %s %s' % (dst[1], hexs(V['bytes'][dst])), 'ok')
+                        nb = None
                     elif kind == 'relink':
                         slot = op[1]
                         if slot in V['linked'] or slot not in objs or slot not in C['bytes']:
@@ -732,6 +948,7 @@ def run_case(case, root):
                             objs.pop(slot, None)
                         V['bytes'], V['linked'], V['dirty'], V['created'], V['root'] = \
                             dict(sn[0]), set(sn[1]), set(sn[2]), set(sn[3]), sn[4]
+                        V['owork'] = sn[5]
                         V['since_sp'] = set()
                         emit('sp.rollback %d' % op[1], 'ok')
                         for sl in sorted(V['linked']):
@@ -756,6 +973,22 @@ def run_case(case, root):
                                     V['bytes'][slot] = data
                         stored_blob = bool(V['dirty'] | V['created'])
                         mine = {u64(objs[s2]._p_oid) for s2 in V['dirty'] if s2 in objs and objs[s2]._p_oid}
+                        exdev_real = None
+                        if len(op) > 2 and op[2] == 'exdev':
+                            # the temp area and the blob directory on different file systems: every rename INTO the
+                            # committed area fails with EXDEV, rename_or_copy_blob copies instead (oracle only)
+                            import errno
+                            exdev_real = os.rename
+                            bd = env.blob_dir + os.sep
+
+                            def rename_exdev(a_, b_2, *aa, **kk):
+                                b3 = os.path.realpath(os.fspath(b_2))
+                                if b3.startswith(bd) and not b3.startswith(bd + 'tmp' + os.sep):
+                                    raise OSError(errno.EXDEV, 'Invalid cross-device link (injected)')
+                                return exdev_real(a_, b_2, *aa, **kk)
+                            os.rename = rename_exdev
+                            faulted[0] = True
+                            cnt('commit:exdev')
                         if len(op) > 2 and op[2] == 'min':
                             # drop every reference to the blob objects and minimise the cache before the commit:
                             # what a savepoint has stored must be committed from the savepoint storage alone
@@ -769,7 +1002,11 @@ def run_case(case, root):
                             gc.collect()
                             cnt('commit:minimized')
                         try:
-                            tm0.commit()
+                            try:
+                                commit0()
+                            finally:
+                                if exdev_real is not None:
+                                    os.rename = exdev_real
                         except Exception as e:
                             guard()
                             F0.clear()
@@ -804,7 +1041,7 @@ def run_case(case, root):
                         rm = FailRM(op[1], bool(op[2]), mid_commit)
                         tm0.get().join(rm)
                         try:
-                            tm0.commit()
+                            commit0()
                             bad('C13:harness', 'failing resource manager did not fail the commit')
                         except Boom:
                             pass
@@ -838,7 +1075,7 @@ def run_case(case, root):
                             if fresh:
                                 r0[slot] = b
                             try:
-                                tm0.commit()
+                                commit0()
                                 bad('C13:commit-with-open-blob', 'commit succeeded although the blob was open for writing')
                             except ValueError:
                                 cnt('openretry:refused')
@@ -861,18 +1098,18 @@ def run_case(case, root):
                                 f.write(data)
                             V['dirty'].add(slot)
                         V['bytes'][slot] = want
-                        tm0.commit()
+                        commit0()
                         guard()
                         committed(u64(db.lastTransaction()))
                         boundary('commit')
                     elif kind == 'failfinish':
-                        if flavor != 'wrap':
+                        if flavor != 'wrap' or mdb is not None:
                             cnt('skip')
                             continue
                         stored_blob = bool(V['dirty'] | V['created'])
                         env.fail_next_finish()
                         try:
-                            tm0.commit()
+                            commit0()
                             cnt('failfinish:nothing-to-commit')
                         except FinishBoom:
                             if stored_blob:
@@ -893,7 +1130,7 @@ def run_case(case, root):
                         nfault = sum(1 for e in env.rec.events if e[0] == 'fault')
                         try:
                             try:
-                                tm0.commit()
+                                commit0()
                                 ok = True
                             finally:
                                 env.rec.fail_at = None
@@ -934,7 +1171,7 @@ def run_case(case, root):
                         data = decode_data(op[3])
                         b = W1['objs'].get(slot)
                         if b is None:
-                            b = W1['objs'][slot] = c1.root()[slot]
+                            b = W1['objs'][slot] = at(c1.root(), slot)
                         base = W1['bytes'].get(slot, W1['snap_bytes'][slot])
                         with b.open(op[2]) as f:
                             f.write(data)
@@ -1014,7 +1251,7 @@ def run_case(case, root):
                         else:
                             db.undoMultiple(ids, tm0.get())
                         try:
-                            tm0.commit()
+                            commit0()
                         except Exception as e:
                             cnt('undo:' + errname(e))
                             tm0.abort()
@@ -1029,6 +1266,58 @@ def run_case(case, root):
                                 cnt('multi-undo:same-object-twice')
                         committed(u64(db.lastTransaction()), undo_of=us)
                         boundary('undo')
+                    elif kind == 'mdbwrite':
+                        if mdb is None:
+                            cnt('skip')
+                            continue
+                        data = decode_data(op[2])
+                        co = c0.get_connection('other')
+                        ro = co.root()
+                        cur = V.get('owork')
+                        if cur is None:
+                            cur = mdb['committed']
+                        if 'x' not in ro:
+                            ob = Blob()
+                            with ob.open('w') as f:
+                                f.write(data)
+                            ro['x'] = ob
+                            V['owork'] = data
+                        else:
+                            with ro['x'].open(op[1]) as f:
+                                f.write(data)
+                            V['owork'] = apply_mode(op[1], cur or b'', data)
+                        got = read_blob(ro['x'])
+                        if got != V['owork']:
+                            bad('C13:working-copy-bytes', 'blob of the second database reads %r, expected %r'
+                                % (got[:40], V['owork'][:40]))
+                        ob = ro = co = None
+                        check_other_db(kind)
+                    elif kind == 'reopen':
+                        if flavor != 'fs' or case.get('mdb') or V['dirty'] or V['created'] or V['root']:
+                            cnt('skip')
+                            continue
+                        # close the database and open the same files again (saved index, same blob directory)
+                        tm0.abort()
+                        F0.clear()
+                        c1_drop()
+                        b = f = fh = sp = None
+                        objs.clear()
+                        c0.close()
+                        c1.close()
+                        env.reopen()
+                        db = env.open_db()
+                        tm0 = transaction.TransactionManager()
+                        c0 = db.open(tm0)
+                        r0 = c0.root()
+                        tm1 = transaction.TransactionManager()
+                        c1 = db.open(tm1)
+                        for slot in C['linked']:
+                            objs[slot] = at(r0, slot)
+                        for slot in C['bytes']:
+                            if slot not in objs and slot in slot_oid:
+                                objs[slot] = c0.get(p64(slot_oid[slot]))
+                        reset_view()
+                        boundary('reopen')
                     elif kind == 'failpack':
                         if flavor != 'fs' or not txns or V['dirty'] or V['created'] or V['root']:
                             cnt('skip')
@@ -1039,7 +1328,10 @@ def run_case(case, root):
                         tt = TimeStamp(p64(txns[-1]['tid'])).timeTime() + 0.5
                         env.fail_next_pack()
                         try:
-                            db.pack(tt)
+                            if len(op) > 2 and op[2] == 'days':
+                                db.pack(tt + 3 * 86400, days=3)      # the same pack time, spelled differently
+                            else:
+                                db.pack(tt)
                             cnt('failpack:nothing-to-pack')
                         except OSError:
                             cnt('failpack:abandoned')
@@ -1150,7 +1442,7 @@ def run_case(case, root):
                         rd = cd.root()
                         for slot in sorted(C['linked']):
                             try:
-                                got = read_blob(rd[slot])
+                                got = read_blob(at(rd, slot))
                             except Exception as e:
                                 bad('C13:demo-first-read', 'first read of blob %s through a fresh DemoStorage raised '
                                     '%s: %s' % (slot, type(e).__name__, str(e)[:100]))
@@ -1161,11 +1453,35 @@ def run_case(case, root):
                         for slot in sorted(C['linked'])[:1]:
                             if problems:
                                 break
-                            with rd[slot].open('a') as f:
+                            with at(rd, slot).open('a') as f:
                                 f.write(b'!demo')
                             tmd.commit()
-                            if read_blob(rd[slot]) != C['bytes'][slot] + b'!demo':
+                            if read_blob(at(rd, slot)) != C['bytes'][slot] + b'!demo':
                                 bad('C13:demo-first-read', 'blob %s rewritten inside the DemoStorage reads wrong bytes' % slot)
+                        if not problems and C['linked']:
+                            slot = sorted(C['linked'])[0]
+                            d2 = demo.push()                   # a further layer on top, then popped again
+                            db2 = ZODB.DB(d2)
+                            tm2 = transaction.TransactionManager()
+                            c2 = db2.open(tm2)
+                            try:
+                                want2 = C['bytes'][slot] + b'!demo'
+                                if read_blob(at(c2.root(), slot)) != want2:
+                                    bad('C13:demo-first-read', 'pushed DemoStorage layer reads wrong bytes for %s' % slot)
+                                with at(c2.root(), slot).open('w') as f:
+                                    f.write(b'layer2')
+                                tm2.commit()
+                                if read_blob(at(c2.root(), slot)) != b'layer2':
+                                    bad('C13:demo-first-read', 'blob rewritten in the pushed layer reads wrong bytes')
+                            finally:
+                                tm2.abort()
+                                c2.close()
+                            d2.pop()
+                            tmd.abort()
+                            cd.sync()
+                            if read_blob(at(cd.root(), slot)) != want2:
+                                bad('C13:demo-first-read', 'after pop the lower DemoStorage layer reads wrong bytes')
+                            c2 = db2 = d2 = None
                         cnt('demo')
                     finally:
                         tmd.abort()
@@ -1177,7 +1493,13 @@ def run_case(case, root):
                     tempfile.tempdir = saved_tmp
                     f = cd = rd = dbd = demo = None
         finally:
+            if mdb is not None:
+                try:
+                    mdb['db'].close()
+                except Exception:
+                    pass
             env.close()
+    _tempfile.tempdir = _saved_tempdir
     if faulted[0]:
         # the model has no raw-fault operation: a faulted history is judged by the oracle alone
         return dict(lines=[], real=[], problems=problems, nontrivial=nontrivial[0], stats=stats,
